@@ -4,6 +4,7 @@ import (
 	"context"
 	"encoding/hex"
 	"errors"
+	"strings"
 
 	"github.com/attestantio/dirk/rules"
 	"github.com/attestantio/dirk/services/checker"
@@ -236,7 +237,16 @@ type fetcherW struct {
 
 func (f *fetcherW) FetchAccount(ctx context.Context, path string) (e2wtypes.Wallet, e2wtypes.Account, error) {
 	rid := Rid(ctx)
-	if kind := f.c.Point(rid, "fetcher.account", path); kind != "" {
+	kind := f.c.Point(rid, "fetcher.account", path)
+	if kind == "wrap-error" || kind == "wrap-locked" {
+		w, a, err := f.Service.FetchAccount(ctx, path)
+		f.c.Log.Emit(Ev{"ev": "PreCheckFetch", "r": rid, "path": path, "ok": err == nil, "fault": kind})
+		if err != nil {
+			return w, a, err
+		}
+		return w, &lockedAccount{Account: a, mode: strings.TrimPrefix(kind, "wrap-")}, nil
+	}
+	if kind != "" {
 		f.c.Log.Emit(Ev{"ev": "PreCheckFetch", "r": rid, "path": path, "ok": false, "fault": kind})
 		return nil, nil, ErrInjected
 	}
